@@ -883,6 +883,14 @@ class Explorer:
             t, v = s.target.id, s.value
         else:
             return out
+        if isinstance(v, ast.Call) and not v.args and not v.keywords and isinstance(v.func, ast.Attribute) and v.func.attr in ("is_set", "done", "cancelled", "locked") \
+                and not any(isinstance(x, (ast.Call, ast.Subscript)) for x in ast.walk(v.func.value)):
+            # `granted = event.is_set()`: a later test on the local is a test on what the query said then - and, like every fact about
+            # `x.is_set()`, it stands until x is rebound or the task suspends
+            return out + [(f"{SAME}({t}, {ast.unparse(subst(v, self.aliases))})", True)]
+        if isinstance(v, ast.Compare) and len(v.ops) == 1 and not any(isinstance(x, (ast.Call, ast.Subscript, ast.Await, ast.NamedExpr)) for x in ast.walk(v)):
+            # `last = self.n == 0`: the flag is the comparison as it stood then (until an operand is rewritten or the task suspends)
+            return out + [(f"{SAME}({t}, {ast.unparse(subst(v, self.aliases))})", True)]
         if not isinstance(v, (ast.Name, ast.Attribute)):
             return out
         vs = ast.unparse(subst(v, self.aliases))
@@ -954,9 +962,13 @@ class Explorer:
                             for fk, fp in f2:
                                 if fp is True and fk.startswith(SAME + "("):
                                     t_, _, vs_ = fk[len(SAME) + 1:-1].partition(", ")
-                                    nk = _subst_key(k, t_, vs_)
+                                    nk = _subst_key(k, t_, f"({vs_})" if " " in vs_ else vs_)
                                     if nk is not None and nk != k:
-                                        extra.add((nk, pol))
+                                        try:
+                                            k2, p2 = atom(ast.parse(nk, mode="eval").body)       # (canonical spelling of the substituted test)
+                                        except SyntaxError:
+                                            k2, p2 = nk, True
+                                        extra.add((k2, pol if p2 else not pol))
                             f2c = _close(set(f2) | {(k, pol)} | extra | set(self._deref(node)))
                             if f2c is None:
                                 continue
